@@ -368,6 +368,11 @@ func c08Run(c *Ctx) {
 			}
 		}
 	}
+	if c.Shard == 0 {
+		c.Sample(map[string]any{"fault": "Read call #3 of a 6-line input fails (chunk size 512, data returned with the error)", "expected": "error returned; output = whole-line prefix of the fault-free output"})
+		c.Sample(map[string]any{"fault": "Write call #2 accepts half of the line, later writes succeed", "expected": "error returned; accepted bytes are a byte prefix of the fault-free output"})
+		c.Sample(map[string]any{"fault": "gzip stream of the 40-line input cut at byte offset 100", "expected": "error returned; output = whole-line prefix"})
+	}
 	c08CLI(c)
 }
 
